@@ -17,14 +17,14 @@ if len(sys.argv) > 1 and os.path.exists(sys.argv[1]):
         elif cur and (ln.startswith("VIOLATION") or re.match(r"C\d\d ", ln)):
             results[cur]["lines"].append(ln.strip())
 kept = 0
-for d in sorted(glob.glob("/tmp/seed_C*_out/m*") + glob.glob("/tmp/seed2_C*_out/m*") + glob.glob("/tmp/seed3_C*_out/m*")):
+for d in sorted(glob.glob("/tmp/seed_C*_out/m*") + glob.glob("/tmp/seed2_C*_out/m*") + glob.glob("/tmp/seed3_C*_out/m*") + glob.glob("/tmp/seed4_C*_out/m*")):
     cf = os.path.join(d, "confirmed.json")
     if not os.path.exists(cf):
         continue
     c = json.load(open(cf))
     ok = c["patch_applies"] == 1 and c["demo_exit_clean"] == 0 and c["demo_exit_with_change"] == 1 and c["suite_with_change"].startswith("533 passed")
-    pid = re.search(r"seed[23]?_(C\d+)_out", d).group(1)
-    name = "%s_%s%s" % (pid, "r2_" if "/seed2_" in d else ("r3_" if "/seed3_" in d else ""), os.path.basename(d))
+    pid = re.search(r"seed[234]?_(C\d+)_out", d).group(1)
+    name = "%s_%s%s" % (pid, "r2_" if "/seed2_" in d else ("r3_" if "/seed3_" in d else ("r4_" if "/seed4_" in d else "")), os.path.basename(d))
     dest = os.path.join(VERIF, "seeded", name)
     if not ok:
         print("NOT KEPT", d, c)
